@@ -141,6 +141,33 @@ theorem insFixP_inner (S : α) (dz dp : Dir) (rq : List Dir) (t : Tree α) (hne 
         (atPath (rotD S dp) (rq.reverse ++ [dp]) t))) := by
   rw [insFixP]; simp [h1, h2, hne]
 
+theorem Rebal.snocCol {S : α} {t u : Tree α} (c : Bool) (p : List Dir) (h : Rebal S t u) :
+    Rebal S t (atPath (setCol c) p u) := h.trans (Rebal.col p c (Rebal.refl _))
+
+theorem Rebal.snocRot {S : α} {t u : Tree α} (d : Dir) (p : List Dir) (h : Rebal S t u) :
+    Rebal S t (atPath (Viewshed.rotD S d) p u) := h.trans (Rebal.rotD d p (Rebal.refl _))
+
+/-- **`_rb_delete_fixup`'s loop only rotates and recolours** -/
+theorem delFixP_rebal (S : α) : ∀ (rp : List Dir) (t : Tree α), Rebal S t (delFixP S rp t).1 := by
+  intro rp
+  induction rp with
+  | nil => intro t; simp only [delFixP]; exact Rebal.refl t
+  | cons dx rq ih =>
+    intro t
+    have step : ∀ X, Rebal S t X → Rebal S t (delFixP S rq X).1 := fun X h => h.trans (ih X)
+    simp only [delFixP]
+    repeat (first
+      | dsimp only
+      | apply step
+      | apply Rebal.snocCol
+      | apply Rebal.snocRot
+      | split
+      | exact Rebal.refl t)
+
+theorem rbDelFix_rebal (S : α) (rp : List Dir) (t : Tree α) : Rebal S t (rbDelFix S rp t) := by
+  unfold rbDelFix
+  exact (delFixP_rebal S rp t).trans (Rebal.col _ false (Rebal.refl _))
+
 /-! ### paths -/
 
 theorem subAt_append : ∀ (p q : List Dir) (t : Tree α), subAt (p ++ q) t = subAt q (subAt p t) := by
